@@ -162,7 +162,7 @@ pub enum FlatFn { Rep(usize), Upto, Ifeven, Twice }
 #[derive(Clone, Debug)]
 pub enum KeyFn { Kmod(i64), Kself, Kconst(i64), Kstr }
 #[derive(Clone, Debug)]
-pub enum BatchFn { Each(Fn_), Rev, Sumall }
+pub enum BatchFn { Each(Fn_), Rev, Sumall, /* round 3: length-CHANGING chunk functions */ Droplast, Dupfirst }
 #[derive(Clone, Debug, PartialEq)]
 pub enum Comb { Count, Sum, Min, Max, MinT, MaxT, Dset, Topk(usize) }
 #[derive(Clone, Copy, Debug, PartialEq)]
@@ -242,10 +242,12 @@ impl BatchFn {
             BatchFn::Each(f) => c.iter().map(|x| f.eval(x)).collect(),
             BatchFn::Rev => c.iter().rev().cloned().collect(),
             BatchFn::Sumall => { let s = c.iter().fold(0i64, |a, x| a.wrapping_add(x.to_int())); c.iter().map(|_| V::I(s)).collect() }
+            BatchFn::Droplast => c[..c.len().saturating_sub(1)].to_vec(),
+            BatchFn::Dupfirst => match c.first() { Some(x) => std::iter::once(x.clone()).chain(c.iter().cloned()).collect(), None => vec![] },
         }
     }
     pub fn enc(&self) -> String {
-        match self { BatchFn::Each(f) => format!("each {}", f.enc()), BatchFn::Rev => "rev".into(), BatchFn::Sumall => "sumall".into() }
+        match self { BatchFn::Each(f) => format!("each {}", f.enc()), BatchFn::Rev => "rev".into(), BatchFn::Sumall => "sumall".into(), BatchFn::Droplast => "droplast".into(), BatchFn::Dupfirst => "dupfirst".into() }
     }
     pub fn elementwise(&self) -> bool { matches!(self, BatchFn::Each(_)) }
 }
@@ -314,6 +316,47 @@ pub enum Step {
     /// `map_with_side_map` over the side map {0: 10, 1: 20}
     MapSideMap,
     Join(JoinKind, Box<Prog>),
+    /// round 3 (PIPE3b): `try_map` with a named predicate (`Ok(x)` when it holds, else `Err("bad:<to_int>")`),
+    /// `try_flat_map` (then a plain `map` turning the `Vec` into a list value), `Result`-preserving map / filter
+    TryMapP(Pred), TryFlatMap(FlatFn, Pred), ResMap(Fn_), ResFilter(Pred),
+    /// `map_with_side_map` over `side_hashmap(pairs)` (duplicate keys: the last pair wins; may be empty)
+    MapSideMapP(Vec<(i64, i64)>),
+    /// `apply_transform` with a user op on `(K, V)` rows that CLAIMS all three capability flags; adds `n`; cost hint
+    CustomValueOp(i64, u8),
+    /// `apply_composite(&Packed(steps))` — transparent: the request lists the inner steps (never empty)
+    Composite(Vec<Step>),
+}
+
+/// the user operator behind `Step::CustomValueOp`
+pub struct UserValueOp(pub i64, pub u8);
+impl ironbeam::DynOp for UserValueOp {
+    fn apply(&self, input: ironbeam::Partition) -> ironbeam::Partition {
+        let v = *input.downcast::<Vec<(V, V)>>().expect("UserValueOp: Vec<(V, V)>");
+        Box::new(v.into_iter().map(|(k, x)| (k, V::I(x.to_int().wrapping_add(self.0)))).collect::<Vec<(V, V)>>())
+    }
+    fn key_preserving(&self) -> bool { true }
+    fn value_only(&self) -> bool { true }
+    fn reorder_safe_with_value_only(&self) -> bool { true }
+    fn cost_hint(&self) -> u8 { self.1 }
+}
+pub fn bad_msg(x: &V) -> String { format!("bad:{}", x.to_int()) }
+pub fn try_p(p: &Pred, x: &V) -> Result<V, String> { if p.eval(x) { Ok(x.clone()) } else { Err(bad_msg(x)) } }
+pub fn try_flat_p(f: &FlatFn, p: &Pred, x: &V) -> Result<Vec<V>, String> { if p.eval(x) { Ok(f.eval(x)) } else { Err(bad_msg(x)) } }
+pub fn is_err_row(r: &V) -> bool { matches!(r, V::P(t, _) if **t == V::S("err".into())) }
+/// `HashMap::from_iter` semantics written out: the LAST pair with the key wins, absent = 0
+pub fn side_pairs_lookup(pairs: &[(i64, i64)], k: i64) -> i64 { pairs.iter().rev().find(|kv| kv.0 == k).map_or(0, |kv| kv.1) }
+fn pairs_enc(v: &[(i64, i64)]) -> String { if v.is_empty() { "-".into() } else { v.iter().map(|(k, x)| format!("{k}:{x}")).collect::<Vec<_>>().join(",") } }
+/// a program with every `Composite` replaced by its inner steps (what the request, the reference and the canon rule see)
+pub fn flatten_steps(steps: &[Step]) -> Vec<Step> {
+    let mut out = vec![];
+    for s in steps {
+        match s {
+            Step::Composite(inner) => out.extend(flatten_steps(inner)),
+            Step::Join(k, r) => out.push(Step::Join(*k, Box::new(Prog { shape: r.shape, src: r.src.clone(), steps: flatten_steps(&r.steps) }))),
+            other => out.push(other.clone()),
+        }
+    }
+    out
 }
 
 /// the user operator behind `Step::CustomOp`: adds `n`; trait-default flags and cost
@@ -370,6 +413,13 @@ impl Step {
             Step::DebugSample(n) => format!("debug_sample {n}"),
             Step::CustomOp(n) => format!("custom_op {n}"), Step::MapSideMap => "map_side_map".into(),
             Step::Join(k, right) => format!("join {} [ {}{} ]", k.enc(), V::L(right.src.clone()).enc(), steps_enc(&right.steps)),
+            Step::TryMapP(p) => format!("try_map_p {}", p.enc()),
+            Step::TryFlatMap(f, p) => format!("try_flat_map {} {}", f.enc(), p.enc()),
+            Step::ResMap(f) => format!("res_map {}", f.enc()),
+            Step::ResFilter(p) => format!("res_filter {}", p.enc()),
+            Step::MapSideMapP(pairs) => format!("map_side_map_p {}", pairs_enc(pairs)),
+            Step::CustomValueOp(n, c) => format!("custom_value_op {n} {c}"),
+            Step::Composite(inner) => { assert!(!inner.is_empty(), "harness: empty composite"); inner.iter().map(Step::enc).collect::<Vec<_>>().join(" ; ") }
         }
     }
     pub fn is_barrier(&self) -> bool {
@@ -389,6 +439,8 @@ impl Step {
             Step::MapSide(_) => "map_with_side", Step::FilterSide(_) => "filter_with_side", Step::TryMap => "try_map", Step::Unresult => "unresult",
             Step::DebugInspect => "debug_inspect", Step::DebugCount => "debug_count", Step::DebugSample(_) => "debug_sample",
             Step::CustomOp(_) => "apply_transform(custom op)", Step::MapSideMap => "map_with_side_map",
+            Step::TryMapP(_) => "try_map(named predicate)", Step::TryFlatMap(..) => "try_flat_map", Step::ResMap(_) => "map over Result", Step::ResFilter(_) => "filter over Result",
+            Step::MapSideMapP(_) => "map_with_side_map(generated map)", Step::CustomValueOp(..) => "apply_transform(flag-claiming op)", Step::Composite(_) => "apply_composite",
         }
     }
 }
@@ -474,6 +526,11 @@ pub fn shape_after(sh: Shape, s: &Step) -> Option<Shape> {
         (Step::TryMap, T) => R,
         (Step::Unresult, R) => T,
         (Step::DebugInspect, sh) | (Step::DebugCount, sh) | (Step::DebugSample(_), sh) if sh != R => sh,
+        (Step::TryMapP(_), T) | (Step::TryFlatMap(..), T) => R,
+        (Step::ResMap(_), R) | (Step::ResFilter(_), R) => R,
+        (Step::MapSideMapP(_), T) => T,
+        (Step::CustomValueOp(..), KV) => KV,
+        (Step::Composite(inner), sh) => return inner.iter().fold(Some(sh), |s, st| s.and_then(|s| shape_after(s, st))),
         _ => return None,
     })
 }
@@ -605,6 +662,16 @@ pub fn apply_step(c: Coll, s: &Step) -> Coll {
                 JoinKind::Full => left.join_full(&r).map(|x: &(V, (Option<V>, Option<V>))| (x.0.clone(), V::pair(opt(&x.1.0), opt(&x.1.1)))),
             })
         }
+        Step::TryMapP(p) => Coll::R(as_t(c).try_map(move |x: &V| try_p(&p, x))),
+        Step::TryFlatMap(f, p) => Coll::R(as_t(c).try_flat_map(move |x: &V| try_flat_p(&f, &p, x)).map(|r: &Result<Vec<V>, String>| r.clone().map(V::L))),
+        Step::ResMap(f) => match c { Coll::R(x) => Coll::R(x.map(move |r: &Result<V, String>| r.clone().map(|v| f.eval(&v)))), _ => panic!("harness: res_map needs shape R") },
+        Step::ResFilter(p) => match c { Coll::R(x) => Coll::R(x.filter(move |r: &Result<V, String>| match r { Ok(v) => p.eval(v), Err(_) => true })), _ => panic!("harness: res_filter needs shape R") },
+        Step::MapSideMapP(pairs) => {
+            let sm = ironbeam::side_hashmap(pairs);
+            Coll::T(as_t(c).map_with_side_map(&sm, |x: &V, m: &std::collections::HashMap<i64, i64>| side_map_f(x, m)))
+        }
+        Step::CustomValueOp(n, cost) => Coll::KV(as_kv(c).apply_transform::<(V, V)>(std::sync::Arc::new(UserValueOp(n, cost)))),
+        Step::Composite(inner) => ext::apply_composite_step(c, inner),
     }
 }
 fn opt(o: &Option<V>) -> V { match o { Some(v) => V::O(Box::new(v.clone())), None => V::N } }
@@ -748,6 +815,8 @@ pub fn reference(prog: &Prog) -> RefOut {
             Step::MapValues(f) => rows = rows.iter().map(|r| V::pair(key_of(r), f.eval(&val_of(r)))).collect(),
             Step::FilterValues(p) => rows.retain(|r| p.eval(&val_of(r))),
             Step::MapValuesBatches(n, f) => {
+                // `BatchMapValuesOp` asserts that the chunk function keeps the chunk length
+                if rows.chunks((*n).max(1)).any(|c| f.eval(&c.iter().map(val_of).collect::<Vec<_>>()).len() != c.len()) { return RefOut::Panic; }
                 rows = rows.chunks((*n).max(1)).flat_map(|c| {
                     let vals: Vec<V> = c.iter().map(val_of).collect();
                     let out = f.eval(&vals);
@@ -796,6 +865,13 @@ pub fn reference(prog: &Prog) -> RefOut {
                 has_join = true;
                 rows = ref_join(*kind, &rows, &r);
             }
+            Step::TryMapP(p) => rows = rows.iter().map(|x| result_v(&try_p(p, x))).collect(),
+            Step::TryFlatMap(f, p) => rows = rows.iter().map(|x| result_v(&try_flat_p(f, p, x).map(V::L))).collect(),
+            Step::ResMap(f) => rows = rows.iter().map(|r| if is_err_row(r) { r.clone() } else { V::pair(key_of(r), f.eval(&val_of(r))) }).collect(),
+            Step::ResFilter(p) => rows.retain(|r| is_err_row(r) || p.eval(&val_of(r))),
+            Step::MapSideMapP(pairs) => rows = rows.iter().map(|x| V::I(x.to_int().wrapping_add(side_pairs_lookup(pairs, x.to_int().rem_euclid(3))))).collect(),
+            Step::CustomValueOp(n, _) => rows = rows.iter().map(|r| V::pair(key_of(r), V::I(val_of(r).to_int().wrapping_add(*n)))).collect(),
+            Step::Composite(inner) => match reference(&Prog { shape: prog.shape, src: rows.clone(), steps: inner.clone() }) { RefOut::Rows(r) => rows = r, other => return other },
         }
     }
     RefOut::Rows(rows)
@@ -1245,6 +1321,7 @@ pub fn movable_key(s: &Step) -> Option<(u8, u8)> {
         Step::FilterValues(_) => Some((0, 1)),
         Step::MapValuesBatches(..) => Some((1, 2)),
         Step::MapValues(_) => Some((1, 3)),
+        Step::CustomValueOp(_, c) => Some((if *c != 1 { 1 } else { 0 }, *c)),
         _ => None,
     }
 }
@@ -1273,3 +1350,30 @@ pub fn reorder_inert(prog: &Prog) -> bool {
     }
     inert_steps(&prog.steps)
 }
+
+/* ---------------------------------------------------------------- round 3 additions (PIPE3b) */
+
+/// apply `steps` to an already built collection of `p` (sources other than `from_vec`; composites)
+pub fn build_from(p: &Pipeline, mut c: Coll, steps: &[Step]) -> Coll {
+    CUR_PIPELINE.with(|cur| *cur.borrow_mut() = Some(p.clone()));
+    for s in steps {
+        c = apply_step(c, s);
+    }
+    c
+}
+
+/// a SIZE parameter (rows, depth, length of an exhaustive block): the quick value in the quick tier, the thorough
+/// value otherwise. `Ctx::budget` multiplies the quick value by ten in the search tier, which is meant for iteration
+/// counts; applied to the depth of an exhaustive enumeration it asks for 12^20 programs / 2^30 inputs.
+pub fn size_for(cx: &Ctx, quick: usize, thorough: usize) -> usize {
+    if cx.tier == crate::ctx::Tier::Quick { quick } else { thorough }
+}
+
+/// child modules (they see this file's private helpers): terminals / sources / composites, the second element
+/// type `W`, float aggregates
+#[path = "pipe_ext.rs"]
+pub mod ext;
+#[path = "pipe_typed.rs"]
+pub mod typed;
+#[path = "pipe_float.rs"]
+pub mod float;
